@@ -72,11 +72,11 @@ func (w *World) doOp(op string) {
 	case "replNonHead":
 		w.enqueue(3, 25*ms)
 	case "deqHead":
-		w.p.Dequeue(1)
+		w.dequeue(1)
 	case "deqNonHead":
-		w.p.Dequeue(3)
+		w.dequeue(3)
 	case "deqAbsent":
-		w.p.Dequeue(9)
+		w.dequeue(9)
 	case "close":
 		w.closeAndLog()
 	case "advHead":
@@ -165,12 +165,12 @@ func (w *World) reach(point string) (*parkReq, bool) {
 		w.enqueue(1, 10*ms)
 		w.settleOr("prefix")
 		req = w.armPark("loop.peeked", func(a []any) bool { return !a[1].(bool) })
-		trigger = func() { w.p.Dequeue(1) }
+		trigger = func() { w.dequeue(1) }
 	case "loop.sawEmpty":
 		w.enqueue(1, 10*ms)
 		w.settleOr("prefix")
 		req = w.armPark(point, nil)
-		trigger = func() { w.p.Dequeue(1) }
+		trigger = func() { w.dequeue(1) }
 	default:
 		panic("unknown point " + point)
 	}
